@@ -34,6 +34,9 @@ MENU = {
     "skip-existing": ["--license", "ISC", "--skip-existing"],
     "tpl-full": ["--license", "Zlib", "--contributor", "Lee L", "--template", "full"],
     "tpl-nocontrib": ["--license", "0BSD", "--template", "nocontrib"],
+    # commands that the tool has to refuse (or carry out completely): nothing may be lost either way
+    "tpl-drops-licences": ["--license", "Unlicense", "--copyright", "Fay F", "--exclude-year", "--template", "nolicence"],
+    "hostile-holder": ["--copyright", "Eve :) -->", "--exclude-year"],
 }
 REQ = {  # what each command requests: (copyright lines, expressions, contributors)
     "holderA": (["SPDX-FileCopyrightText: 2020 Alice A"], [], []),
@@ -48,6 +51,8 @@ REQ = {  # what each command requests: (copyright lines, expressions, contributo
     "skip-existing": ([], ["ISC"], []),
     "tpl-full": ([], ["Zlib"], ["Lee L"]),
     "tpl-nocontrib": ([], ["0BSD"], []),
+    "tpl-drops-licences": (["SPDX-FileCopyrightText: Fay F"], ["Unlicense"], []),
+    "hostile-holder": (["SPDX-FileCopyrightText: Eve :) -->"], [], []),
 }
 STYLES = {"python": "f.py", "c": "f.c", "html": "f.html", "cpp": "f.cpp"}
 COMMENT = {
@@ -63,7 +68,7 @@ STARTS = ["empty", "code", "foreign-prefix-header", "multi-line-header", "binary
 def initial(style, start):
     """(files, model, target file name)"""
     name = STYLES[style]
-    tpl = annot.template_recipe(["full", "nocontrib"])
+    tpl = annot.template_recipe(["full", "nocontrib", "nolicence"])
     model = {"c": [], "l": [], "k": []}
     if start == "empty":
         files = {name: ""}
@@ -137,6 +142,10 @@ def step(files, model, name, tpl, style, cmd):
             viols.append((f"usage-error-changed-tree|{cmd}", f"{label}: exit 2 but tree changed"))
         return files, model, viols, "usage"
     if res.exit_code != 0:
+        # a refused step must leave everything as it was (the information the file declared stays declared)
+        if {k: v for k, v in after.items() if not k.startswith(".reuse")} != read_back_bytes(files):
+            changed = sorted(k for k in set(after) | set(files) if not k.startswith(".reuse") and after.get(k) != read_back_bytes(files).get(k))
+            viols.append((f"refused-step-changed-file|{cmd}", f"{label}: exit {res.exit_code} but {changed} changed: before {files.get(changed[0])!r} after {after.get(changed[0])!r}"))
         return files, model, viols, f"exit{res.exit_code}"
     skipped = "Skipped file" in res.stdout
     want = {k: list(v) for k, v in model.items()}
